@@ -15,8 +15,8 @@ def main(ck):
     q = ck.quick()
     res = []
     res += CC.run_stream(ck, "single-operator", int(os.environ.get("VERIF_N", 250)) if q else 3000, dict(allow=ELEMENT), dict(depth=1))
-    res += CC.run_stream(ck, 'multi-statement', 250 if q else 3000, dict(allow=ELEMENT | {'filter'}, flat=True))
-    res += CC.run_stream(ck, 'nested', 200 if q else 3000, dict(allow=ELEMENT | {'filter'}))
+    res += CC.run_stream(ck, 'multi-statement', 120 if q else 3000, dict(allow=ELEMENT | {'filter'}, flat=True))
+    res += CC.run_stream(ck, 'nested', 100 if q else 3000, dict(allow=ELEMENT | {'filter'}))
     hist = CC.report(ck, res)
     ck.note('rule', 'case = (script, input data); non-trivial = model and engine agree on a non-empty result or on the '
                     'division-by-zero error; distinct by (script, data)')
